@@ -6,6 +6,16 @@ NOTES = ('All checks are ./check <id>; each rebuilds a source-only overlay from 
 NOT_CLAIMED = {}
 
 PROPS = {
+    'C04': {
+        'modules': ['contracts.C04_errors'],
+        'level': 'proof',
+        'level_text': '_find_error_handler = nearest registered class of the MRO (enumerated hierarchy shapes x every registered subset), last registration wins, '
+                      'default handlers installed by the real __init__, _handle_exception resets text/data/media before the handler and re-renders a raised '
+                      'HTTPError/HTTPStatus (WSGI and ASGI), compose functions with header-map frames, to_dict/to_json/_to_xml shape, the full negotiation table of '
+                      'default_serialize_error with Vary: Accept on every path, and the default chain never lets an Exception-derived error escape.',
+        'level_note': 'Class hierarchies are enumerated over 4 shapes of up to 4 classes (not universal). JSON/XML/uri encoders, client_prefers and the media '
+                      'registry are opaque contract stubs. One recorded known finding (Set-Cookie among error headers escapes).',
+    },
     'C02': {
         'modules': ['contracts.C02_dispatch'],
         'level': 'proof',
